@@ -218,7 +218,93 @@ func c17Units(tier string) []Unit {
 			}
 		}
 	}
+	// exhaustive (no deduplication) over three user keys with one version each
+	exDepth := 6
+	exLevels := []int{2, 3}
+	if tier == "thorough" {
+		exDepth = 8
+		exLevels = []int{2, 3, 4}
+	}
+	exKeys := []string{"a@1", "b@1", "c@1"}
+	exProbes := append(append([]string{}, exKeys...), " @1", "a@9", "bb@1", "zz@3")
+	for _, ml := range exLevels {
+		for _, fk := range exKeys {
+			for fh := 1; fh <= ml; fh++ {
+				ml, fk, fh := ml, fk, fh
+				units = append(units, Unit{Name: fmt.Sprintf("exhaustive/keys=3/maxLevel=%d/depth=%d/first=%s,h%d", ml, exDepth, fk, fh), Weight: exDepth + 2, Run: func(c *Ctx) {
+					c17Exhaustive(c, ml, exDepth, exKeys, exProbes, slOp{Kind: "S", K: fk, V: "p", H: fh})
+				}})
+			}
+		}
+	}
 	return units
+}
+
+// c17Exhaustive enumerates every sequence up to the depth WITHOUT state deduplication (a canonical state of
+// (content, heights) cannot see stale internal fields such as the list level; two paths to the same canonical
+// state may differ internally, so for a tiny universe every path is extended).
+func c17Exhaustive(c *Ctx, maxLevel, depth int, vkeys, probes []string, first slOp) {
+	if c.Replay != nil {
+		c17Search(c, maxLevel, depth, vkeys, probes, first)
+		return
+	}
+	var rec func(seq []slOp, cur *slModel)
+	rec = func(seq []slOp, cur *slModel) {
+		if len(c.Res.Violations) >= 5 {
+			return
+		}
+		if c.TimeUp() {
+			if c.Res.Exhaustive {
+				c.Res.Exhaustive = false
+				c.Cap("deadline reached before all sequences of this unit were run")
+			}
+			return
+		}
+		m, err := slRun(maxLevel, 0.5, seq, probes)
+		c.Res.Executions++
+		c.Res.Transitions++
+		c.Res.States++
+		c.Res.Evaluations += int64(len(probes)*(len(probes)+2) + 1)
+		if err != nil {
+			oe := err.(*OracleErr)
+			c.Violation(oe.Sig, oe.Detail, nil, seq)
+			return
+		}
+		if len(seq) >= 4 {
+			c.NTHash(uint64(len(seq))*1000003 + hashOps(seq))
+		}
+		if len(seq) == depth {
+			c.Sample(map[string]any{"ops": fmt.Sprint(seq), "state": m.key()})
+			return
+		}
+		for _, k := range vkeys {
+			i := m.find(k)
+			present := i < len(m.ents) && m.ents[i].K == k
+			var ops []slOp
+			if present {
+				ops = []slOp{{Kind: "S", K: k, V: "qq", Tomb: true, H: 1}, {Kind: "D", K: k}}
+			} else {
+				for h := 1; h <= maxLevel; h++ {
+					ops = append(ops, slOp{Kind: "S", K: k, V: "p", H: h})
+				}
+			}
+			for _, op := range ops {
+				rec(append(append([]slOp(nil), seq...), op), m)
+			}
+		}
+	}
+	rec([]slOp{first}, nil)
+}
+
+func hashOps(seq []slOp) uint64 {
+	var h uint64 = 1469598103934665603
+	for _, o := range seq {
+		for _, b := range []byte(o.String()) {
+			h ^= uint64(b)
+			h *= 1099511628211
+		}
+	}
+	return h
 }
 
 func c17Search(c *Ctx, maxLevel, depth int, vkeys, probes []string, first slOp) {
@@ -317,7 +403,7 @@ func c17Search(c *Ctx, maxLevel, depth int, vkeys, probes []string, first slOp) 
 func init() {
 	Props["C17"] = &PropMeta{
 		Units: c17Units,
-		Rule: "breadth-first explicit-state search over Set/Delete sequences on the real skiplist (versioned keys over 'a','a!','b','a@1' x versions {1,2,10}; values incl. empty, tombstone flag), " +
+		Rule: "(plus every Set/Delete sequence up to depth 6 (thorough 8) over three keys WITHOUT state deduplication, every tower height) breadth-first explicit-state search over Set/Delete sequences on the real skiplist (versioned keys over 'a','a!','b','a@1' x versions {1,2,10}; values incl. empty, tombstone flag), " +
 			"every tower height 1..maxLevel for every insertion (scripted through the math/rand shim), maxLevel in {1,2,3,4}, states deduplicated on (content, heights); after every transition " +
 			"Get, LowerBound, Scan (every start/end probe pair incl. absent keys before/between/after) and All are compared with a sorted-slice model; a state is non-trivial with >= 2 elements and a tower above 1",
 		Assumptions: []string{
